@@ -240,6 +240,49 @@ class PyUpgrade(ast.NodeTransformer):
         return n
 
 
+class TupleAssign(ast.NodeTransformer):
+    """two consecutive assignments `a = x; b = y` with plain right-hand sides (names, constants, attribute chains) where y does
+    not read a (nor anything a's store could change) become `a, b = x, y`"""
+    @staticmethod
+    def _pure(e):
+        if isinstance(e, ast.Constant):
+            return True
+        while isinstance(e, ast.Attribute):
+            e = e.value
+        return isinstance(e, ast.Name)
+
+    def _merge(self, body):
+        out = []
+        i = 0
+        while i < len(body):
+            a = body[i]
+            b = body[i + 1] if i + 1 < len(body) else None
+            if isinstance(a, ast.Assign) and isinstance(b, ast.Assign) and len(a.targets) == 1 and len(b.targets) == 1 and \
+                    all(isinstance(t, (ast.Name, ast.Attribute)) and self._pure(t) for t in (a.targets[0], b.targets[0])) and \
+                    self._pure(a.value) and self._pure(b.value):
+                ta, tb = ast.unparse(a.targets[0]), ast.unparse(b.targets[0])
+                vb = ast.unparse(b.value)
+                if ta != tb and not (vb == ta or vb.startswith(ta + ".") or ta.startswith(vb + ".")) and \
+                        not isinstance(b.value, ast.Constant) or (isinstance(b.value, ast.Constant) and ta != tb):
+                    if not (vb == ta or vb.startswith(ta + ".")):
+                        new = ast.Assign(targets=[ast.Tuple(elts=[a.targets[0], b.targets[0]], ctx=ast.Store())],
+                                         value=ast.Tuple(elts=[a.value, b.value], ctx=ast.Load()))
+                        out.append(ast.copy_location(new, a))
+                        i += 2
+                        continue
+            out.append(a)
+            i += 1
+        return out
+
+    def generic_visit(self, node):
+        super().generic_visit(node)
+        for fld in ("body", "orelse", "finalbody"):
+            v = getattr(node, fld, None)
+            if isinstance(v, list) and v and isinstance(v[0], ast.stmt):
+                setattr(node, fld, self._merge(v))
+        return node
+
+
 class OSErrorAliases(ast.NodeTransformer):
     """Python 3 aliases of OSError spelled as OSError: IOError, EnvironmentError, socket.error (same class objects)"""
     def visit_Name(self, n):
@@ -254,7 +297,7 @@ class OSErrorAliases(ast.NodeTransformer):
         return n
 
 
-MODES = {"withlock": WithLock, "flipcmp": FlipCmp, "earlyret": EarlyRet, "elseify": Elseify, "swapif": SwapIf, "demorgan": DeMorgan, "tmpvar": TmpVar}
+MODES = {"tupleassign": TupleAssign, "withlock": WithLock, "flipcmp": FlipCmp, "earlyret": EarlyRet, "elseify": Elseify, "swapif": SwapIf, "demorgan": DeMorgan, "tmpvar": TmpVar}
 
 
 def transform(text, mode):
